@@ -218,3 +218,28 @@ def zero_block_cases(rng, count):
         if k is not None and 1 <= k < N:
             out.append(("wif", k, comp, test, (a, b)))
     return out
+
+
+_ulook = [None]
+
+
+def unicode_lookalikes():
+    """non-ASCII characters that Python's own str methods map to ASCII: c.lower(), c.upper(), c.casefold() or the
+    NFKC / NFKD normal form of c is a single printable ASCII character (KELVIN SIGN -> k, LONG S -> S, full-width and
+    mathematical letters and digits, ...).  Returned as {ascii_char: [characters]} — the substitution alphabet for
+    'is a character that merely LOOKS right to some str method accepted?'"""
+    if _ulook[0] is None:
+        import unicodedata
+        out = {}
+        for cp_ in range(0x80, 0x30000):
+            c = chr(cp_)
+            if 0xD800 <= cp_ <= 0xDFFF:
+                continue
+            imgs = {c.lower(), c.upper(), c.casefold(), unicodedata.normalize("NFKC", c), unicodedata.normalize("NFKD", c)}
+            for im in imgs:
+                if len(im) == 1 and 33 <= ord(im) <= 126:
+                    out.setdefault(im, [])
+                    if c not in out[im] and len(out[im]) < 6:
+                        out[im].append(c)
+        _ulook[0] = out
+    return _ulook[0]
